@@ -29,9 +29,13 @@ pub enum Kind {
     SingleUseThen,
     /// every call is erroneous (strict mock, no pattern accepts): errors race for the shared list (C08)
     AllErrors,
+    /// ordered slots that accept only part of the argument domain: some calls are rejected in the middle
+    /// of the sequence while other threads go on (what follows a rejected ordered call is not specified,
+    /// so the oracle is: no ordered position is ever handed out twice)
+    OrderedRejecting,
 }
 
-pub const KINDS: [Kind; 6] = [Kind::UnorderedChain, Kind::Ordered, Kind::Mixed, Kind::SingleUse, Kind::SingleUseThen, Kind::AllErrors];
+pub const KINDS: [Kind; 7] = [Kind::UnorderedChain, Kind::Ordered, Kind::Mixed, Kind::SingleUse, Kind::SingleUseThen, Kind::AllErrors, Kind::OrderedRejecting];
 
 #[derive(Clone, Debug, PartialEq, Eq, Hash, Serialize, Deserialize)]
 pub struct RaceCase {
@@ -105,6 +109,18 @@ pub fn clauses(case: &RaceCase) -> Vec<ClauseSpec> {
             entry: Entry::Some,
             pat: pat(6, vec![seg(Resp::Returns, Quant::Once), seg(Resp::Returns, Quant::None)]),
         }],
+        Kind::OrderedRejecting => {
+            let mut v = vec![];
+            for i in 0..case.slots.max(1) {
+                let mask = [0x0fu8, 0xf0, 0xff][i as usize % 3];
+                v.push(ClauseSpec::Single {
+                    method: 0,
+                    entry: Entry::Next,
+                    pat: PatternSpec { id: 10 + i as u16, mask, matcher: MatcherKind::FuncDebug, chain: vec![seg(Resp::Answers, Quant::NTimes(1))] },
+                });
+            }
+            v
+        }
         Kind::AllErrors => vec![ClauseSpec::Single {
             method: 2,
             entry: Entry::Each,
@@ -118,6 +134,7 @@ fn call_of(case: &RaceCase, t: usize, k: usize) -> (u8, u8) {
     let arg = ((t * 3 + k) % ARGS as usize) as u8;
     match case.kind {
         Kind::Ordered => (0, arg),
+        Kind::OrderedRejecting => (0, ((t * 5 + k * 3) % ARGS as usize) as u8),
         Kind::Mixed => (if (t + k) % 2 == 0 { 0 } else { 2 }, arg),
         // alternate between an unmatched call and a call to an unmentioned method
         Kind::AllErrors => (if (t + k) % 2 == 0 { 2 } else { 1 }, arg),
@@ -266,6 +283,37 @@ pub fn execute(case: &RaceCase, schedule: &[u8]) -> Result<Executed, String> {
         v.sort();
     }
     let verify = verify_original(original, VerifyMode::Drop);
+    if case.kind == Kind::OrderedRejecting {
+        // capacity of every tag = number of ordered positions that answer with it (walk the sequence in order)
+        let mut cap_model = Model::new(false, &cl, &FACTS).map_err(|e| format!("HARNESS: model {e:?}"))?;
+        let mut capacity: std::collections::BTreeMap<u32, usize> = Default::default();
+        for c in &cl {
+            let mask = c.patterns()[0].mask;
+            let arg = (0..ARGS).find(|a| (mask >> a) & 1 == 1).unwrap_or(0);
+            if let Outcome::Value(v) = cap_model.call(0, arg) {
+                *capacity.entry(v).or_default() += 1;
+            }
+        }
+        let mut seen: std::collections::BTreeMap<u32, usize> = Default::default();
+        for o in observed.values().flatten() {
+            if let O::Value(v) = o {
+                *seen.entry(*v).or_default() += 1;
+            }
+        }
+        for (v, n) in &seen {
+            let cap = capacity.get(v).copied().unwrap_or(0);
+            if *n > cap {
+                return Err(format!(
+                    "the response of one ordered position ({v}) was handed out {n} times under this interleaving (it is configured for {cap}): {observed:?}"
+                ));
+            }
+        }
+        let any_panic = observed.values().flatten().any(|o| *o == O::MockPanic);
+        if any_panic && matches!(verify, VerifyObs::Silent) {
+            return Err("a call was rejected, yet verification after join passed".into());
+        }
+        return Ok(Executed { decisions: run.decisions, switches: run.switches, trace_len: run.trace.len() });
+    }
     if observed != expected {
         return Err(format!(
             "responses handed out under this interleaving {observed:?} differ from positions 1..N {expected:?}"
@@ -310,6 +358,7 @@ pub fn check(case: &RaceCase) -> Result<CaseInfo, String> {
             Kind::SingleUse => "single-use",
             Kind::SingleUseThen => "single-use-then",
             Kind::AllErrors => "all-errors",
+            Kind::OrderedRejecting => "ordered-with-rejected-calls",
         })
         .class_if(case.shared, "shared-&Unimock")
         .class_if(case.creator, "creator-thread-takes-part"))
@@ -379,12 +428,13 @@ fn slot_variants(kind: Kind, threads: u8, calls: u8) -> Vec<u8> {
     let n = threads * calls;
     match kind {
         Kind::Ordered => vec![n, n.saturating_sub(1).max(1)],
+        Kind::OrderedRejecting => vec![n],
         Kind::Mixed => vec![n.div_ceil(2)],
         _ => vec![0],
     }
 }
 
-pub const RULE: &str = "schedules of the real code at the granularity of every atomic operation and lock acquisition the runtime performs (yield hook): T threads x K calls through clones on (a) one unordered pattern with a 3-segment response chain, (b) an ordered sequence whose slots accept every call (as many slots as calls, and one fewer), (c) both mixed, (d)/(e) single-use values. exhaustive = depth-first enumeration of ALL schedules for (T,K) in {(2,1),(2,2),(3,1),(2,3)} (+ (3,2),(4,1) in the thorough tier); sampled = proptest-generated choice sequences for (3,2)..(4,3); stress = 16 unsynchronised real threads. Oracle: multiset of returned tags / panics per method equals that of positions 1..N of the sequential model, and the verification verdict after join equals the sequential verdict. Non-trivial = >= 2 context switches at yield points; distinct = distinct schedule";
+pub const RULE: &str = "schedules of the real code at the granularity of every atomic operation and lock acquisition the runtime performs (yield hook): T threads x K calls through clones on (a) one unordered pattern with a 3-segment response chain, (b) an ordered sequence whose slots accept every call (as many slots as calls, and one fewer), (c) both mixed, (d)/(e) single-use values, (f) an ordered sequence whose slots reject part of the calls (oracle there: no ordered position is handed out twice, and verification fails after a rejection). exhaustive = depth-first enumeration of ALL schedules for (T,K) in {(2,1),(2,2),(3,1),(2,3)} (+ (3,2),(4,1) in the thorough tier); sampled = proptest-generated choice sequences for (3,2)..(4,3); stress = 16 unsynchronised real threads. Oracle: multiset of returned tags / panics per method equals that of positions 1..N of the sequential model, and the verification verdict after join equals the sequential verdict. Non-trivial = >= 2 context switches at yield points; distinct = distinct schedule";
 
 pub fn stress(ctx: &Ctx) -> SubReport {
     // real threads, hooks idle: 16 threads hammer an unordered chain and an ordered sequence
@@ -500,7 +550,7 @@ pub fn run(ctx: &Ctx) -> Verdict {
         "sequentially consistent interleavings only (no weak-memory effects)".into(),
     ];
     v.subs.push(super::replay_corpus(ctx));
-    v.subs.extend(run_kinds(ctx, &[(2, 1), (2, 2), (3, 1), (2, 3)], &[Kind::UnorderedChain, Kind::Ordered, Kind::Mixed]));
+    v.subs.extend(run_kinds(ctx, &[(2, 1), (2, 2), (3, 1), (2, 3)], &[Kind::UnorderedChain, Kind::Ordered, Kind::Mixed, Kind::OrderedRejecting]));
     v.subs.push(stress(ctx));
     v
 }
